@@ -27,6 +27,7 @@ from ..model import attr_chain
 from ..model import call_name
 from ..model import last_attr
 from ..model import walk_in_order
+from ..paths import GenericSpec
 from ..paths import index_of
 from ..paths import traces_of
 from ..selftest import Mutant
@@ -334,7 +335,37 @@ def _r14_3(ctx):
     ctx.expect_instances("R14.3", 1 + 8 + 1 + 1)
 
 
+def _r14_4(ctx):
+    """TunnelLayer._handle_command: no command of the inner layer is dropped.  Every terminating path does something with the command:
+    SendData for the tunnelled connection -> send_data(command.data) (encrypts + sends), CloseConnection -> send_close, OpenConnection ->
+    its own OpenConnection, anything else -> passed on unchanged.  A path that returns without any of these silently loses bytes the inner
+    layer sent ("every byte the inner layer sends reaches the peer")."""
+    TUN = "mitmproxy/proxy/tunnel.py"
+    fn = ctx.func(TUN, "TunnelLayer._handle_command")
+    params = [a.arg for a in fn.args.args]
+    ctx.require(len(params) == 2, "TunnelLayer._handle_command signature changed")
+    cmd = params[1]
+    res, eng = traces_of(fn, GenericSpec(keep=lambda e: e[0] in ("yield", "yield_from", "cond"), record_conds=True))
+    term = [(t, how) for t, how, st in res if how == "return"]
+    ctx.require(len(term) >= 4, f"TunnelLayer._handle_command: expected >= 4 returning paths, got {len(term)}")
+    ctx.paths += len(term)
+    dropped = [t for t, how in term if not any(e[0] in ("yield", "yield_from") for e in t)]
+    ctx.check(not dropped, "R14.4", (TUN, "TunnelLayer._handle_command", fn), "every path handles or forwards the command",
+              f"{len(dropped)} path(s) return without sending, closing, opening or forwarding the command (conditions: {[e[1] for e in dropped[0] if e[0] == 'cond'] if dropped else ''}): "
+              "data the inner layer sends is silently lost", desc=f"_handle_command: all {len(term)} returning paths act on the command")
+    send_paths = [t for t, how in term if any(e[0] == "cond" and "SendData" in e[1] and e[2] for e in t)]
+    ctx.require(send_paths, "TunnelLayer._handle_command: no path for SendData found")
+    ok = all(any(e[0] == "yield_from" and e[1].endswith("send_data") for e in t) for t in send_paths)
+    ctx.check(ok, "R14.4", (TUN, "TunnelLayer._handle_command", fn), "SendData -> self.send_data(...) on every path",
+              "a SendData for the tunnelled connection does not reach send_data on every path", desc=f"SendData reaches send_data on all {len(send_paths)} paths")
+    calls = [c for c in walk_in_order(fn) if isinstance(c, ast.Call) and norm(c.func).endswith("self.send_data")]
+    ctx.check(len(calls) >= 1 and all(len(c.args) == 1 and norm(c.args[0]) == f"{cmd}.data" for c in calls), "R14.4", (TUN, "TunnelLayer._handle_command", fn), f"send_data({cmd}.data)",
+              "the bytes handed to send_data are not the command's data", desc=f"send_data receives {cmd}.data itself")
+    ctx.expect_instances("R14.4", 3)
+
+
 def check(ctx):
+    ctx.rule("R14.4", "TunnelLayer._handle_command never drops a command: SendData reaches send_data(command.data) on every path")
     ctx.rule("R14.1", "receive_data / send_data / tls_interact: feed before read, accumulate, deliver once, close after data, flush after I/O")
     ctx.rule("R14.2", "receive_close suppresses the transport close only after close_notify (RECEIVED_SHUTDOWN)")
     ctx.rule("R14.3", "handshake-time events are queued, replayed in order after OPEN; receive_data(b'') after a completed handshake")
@@ -343,9 +374,12 @@ def check(ctx):
     _r14_1(ctx)
     _r14_2(ctx)
     _r14_3(ctx)
+    _r14_4(ctx)
 
 
 MUTANTS = [
+    Mutant("senddata-dropped-unless-tunnel-open", TU, "                yield from self.send_data(command.data)\n", "                if self.tunnel_state is TunnelState.OPEN:\n                    yield from self.send_data(command.data)\n", "R14.4"),
+    Mutant("unknown-commands-swallowed", TU, "        else:\n            yield command\n\n    def event_to_child", "        elif not isinstance(command, commands.Log):\n            yield command\n\n    def event_to_child", "R14.4"),
     Mutant("close-before-data", PT,
            "        if plaintext:\n            yield from self.event_to_child(\n                events.DataReceived(self.conn, bytes(plaintext))\n            )\n        if close:\n            self.conn.state &= ~connection.ConnectionState.CAN_READ\n            if self.debug:\n                yield commands.Log(f\"{self.debug}[tls] close_notify {self.conn}\", DEBUG)\n            yield from self.event_to_child(events.ConnectionClosed(self.conn))\n",
            "        if close:\n            self.conn.state &= ~connection.ConnectionState.CAN_READ\n            yield from self.event_to_child(events.ConnectionClosed(self.conn))\n        if plaintext:\n            yield from self.event_to_child(\n                events.DataReceived(self.conn, bytes(plaintext))\n            )\n", "R14.1"),
